@@ -171,7 +171,11 @@ func c10Worker(args []string) {
 				}
 				evr.OpHist = &hist
 				marker("CALL/" + fn + "/" + fmt.Sprint(k))
+				envBefore := strings.Join(os.Environ(), "\x00")
 				o := evr.Exec(map[string]interface{}{"Path": canary})
+				if envAfter := strings.Join(os.Environ(), "\x00"); envAfter != envBefore && len(rep.ErrorsSample) < 20 {
+					rep.ErrorsSample = append(rep.ErrorsSample, "LEAK: the environment of the process changed during "+script+": "+envDiff(envBefore, envAfter))
+				}
 				rep.Calls++
 				if o.Err != nil && len(rep.ErrorsSample) < 5 {
 					rep.ErrorsSample = append(rep.ErrorsSample, fn+": "+o.Err.Error())
@@ -351,6 +355,34 @@ func c10Worker(args []string) {
 	b, _ := json.Marshal(rep)
 	real.Write(b)
 	real.Write([]byte("\n"))
+}
+
+// envDiff names the variables that differ between two NUL-joined environment snapshots.
+func envDiff(a, b string) string {
+	am, bm := map[string]string{}, map[string]string{}
+	for _, kv := range strings.Split(a, "\x00") {
+		if i := strings.Index(kv, "="); i > 0 {
+			am[kv[:i]] = kv[i+1:]
+		}
+	}
+	for _, kv := range strings.Split(b, "\x00") {
+		if i := strings.Index(kv, "="); i > 0 {
+			bm[kv[:i]] = kv[i+1:]
+		}
+	}
+	var out []string
+	for k, v := range bm {
+		if am[k] != v {
+			out = append(out, fmt.Sprintf("%s: %q -> %q", k, am[k], v))
+		}
+	}
+	for k := range am {
+		if _, ok := bm[k]; !ok {
+			out = append(out, k+" removed")
+		}
+	}
+	sort.Strings(out)
+	return strings.Join(out, "; ")
 }
 
 var straceLine = regexp.MustCompile(`^(\d+)\s+([a-z_0-9]+)\((.*)$`)
